@@ -190,4 +190,79 @@ Section Exact.
       exact (IH ifuel test fl d' next' s2 (q ++ got) (O ++ w) fr' tail content s' G1 HB2 ltac:(rewrite G3; exact F2) Hb2 V2
                 (conj G0 G4) H).
   Qed.
+
+  (* LZ4IO_decompressLZ4F on [frame ++ tail]: a loop that returns has consumed exactly the frame *)
+  Theorem lz4f_st_c_reads_exactly : forall fuel ifuel test fl d0 s s' fr tail content,
+    dctx_fresh d0 ->
+    r_consumed (snd (decompress_usingDict bdec d0 magic4 0 [] (o_first false))) = 4 ->
+    s_in s = fr ++ tail -> bytes_ok (s_in s) = true ->
+    frame_decode bdec false [] (magic4 ++ fr) = Some (content, []) ->
+    lz4f_st_c bdec fuel ifuel false test fl d0 s = Ret tt s' ->
+    s_in s' = tail.
+  Proof.
+    intros fuel ifuel test fl d0 s s' fr tail content (Hwf & S1 & S2 & S3) H4 Hs Hb V H.
+    unfold lz4f_st_c in H. fold magic4 in H.
+    change (decompress_usingDict bdec d0 magic4 0 [] (o_first false)) with (decompress bdec (pre_ud (Some []) d0) magic4 0 (o_first false)) in *.
+    set (s1 := pre_ud (Some []) d0) in *.
+    pose proof (wf_pre (Some []) d0 Hwf) as Hwf1. fold s1 in Hwf1.
+    assert (HB1 : BInv bdec false [] [] [] s1).
+    { apply BInvU_pre; [intros d1 E; inversion E; reflexivity|]. right. repeat split; auto. discriminate. }
+    assert (V0 : frame_decode bdec false [] ([] ++ magic4 ++ fr) = Some (content, [])) by exact V.
+    assert (Hval : Valid bdec [] [] magic4) by (exists fr, (content, []); exact V).
+    assert (Hbf : bytes_ok fr = true).
+    { rewrite Hs, bytes_ok_app' in Hb. apply andb_prop in Hb. tauto. }
+    pose proof (call_chunk bdec false [] s1 magic4 0 (o_first false) [] [] eq_refl Hwf1 HB1 eq_refl ltac:(lia)) as CC. cbv zeta in CC.
+    specialize (CC (or_intror Hval)). destruct CC as [CCn CCp].
+    remember (decompress bdec s1 magic4 0 (o_first false)) as dr eqn:ED. destruct dr as [d1 r]. cbn [fst snd] in *.
+    destruct (r_ret r <? 0) eqn:Eneg; [discriminate|].
+    destruct (CCp ltac:(lia)) as (x & rest & E1 & E2 & Hwf' & HH). clear CCp CCn.
+    assert (x = magic4 /\ rest = []) as [-> ->].
+    { assert (length x = 4%nat) by (unfold zlen in E2; lia).
+      assert (length magic4 = 4%nat) by reflexivity.
+      assert (rest = []).
+      { apply (f_equal (@length byte)) in E1. rewrite app_length in E1. destruct rest; [reflexivity|cbn in E1; lia]. }
+      subst rest. rewrite app_nil_r in E1. split; [symmetry; exact E1|reflexivity]. }
+    cbn [app] in HH.
+    destruct (r_ret r =? 0) eqn:Ez.
+    - (* the frame is over after the magic number: impossible unless nothing follows; then nothing is read *)
+      destruct fuel as [|f]; [discriminate|]. cbn [outer] in H. rewrite Ez in H.
+      apply finish_ret in H. destruct H as [_ ->].
+      destruct HH as [D | (_ & _ & K & _)].
+      + specialize (D fr). unfold SpecGoal in D. rewrite V in D. inversion D as [[Ec Ef]].
+        rewrite Hs, <- Ef. reflexivity.
+      + exfalso. rewrite <- (app_nil_r magic4) in K. exact (not_skippable _ K).
+    - (* the hint of the header call *)
+      assert (Hh : 0 < r_ret r <= zlen fr).
+      { split; [lia|].
+        unfold decompress in ED.
+        destruct (run bdec (call_fuel magic4) (o_first false) (mkL (set_skip s1 (d_skip s1 || o_skip (o_first false))) magic4 0 [] 0)) as [l' f] eqn:HR.
+        destruct f as [h|v|]; apply pair_equal_spec in ED; destruct ED as [_ Er]; subst r; cbn [r_ret r_consumed] in *.
+        - destruct (call_hint_within_frame bdec false [] s1 magic4 0 (o_first false) [] [] fr (content, []) l' h
+                      eq_refl Hwf1 HB1 eq_refl ltac:(lia) V0 HR ltac:(lia) Hbf) as [_ B].
+          change (zlen magic4) with 4 in B. lia.
+        - lia.
+        - lia. }
+      eapply (outer_exact fuel ifuel test fl d1 (r_ret r) s [] ([] ++ r_out r) fr tail content s').
+      + exact Hwf'.
+      + rewrite app_nil_r. apply BInv_BInvU. exact HH.
+      + exact Hs.
+      + exact Hb.
+      + rewrite app_nil_r. exact V.
+      + exact Hh.
+      + exact H.
+  Qed.
+
+  (* on a calloc'ed dctx *)
+  Theorem lz4f_st_fresh_reads_exactly : forall fuel ifuel test fl s s' fr tail content,
+    s_in s = fr ++ tail -> bytes_ok (s_in s) = true ->
+    frame_decode bdec false [] (magic4 ++ fr) = Some (content, []) ->
+    lz4f_st_c bdec fuel ifuel false test fl dctx_init s = Ret tt s' ->
+    s_in s' = tail.
+  Proof.
+    intros fuel ifuel test fl s s' fr tail content Hs Hb V H.
+    apply (lz4f_st_c_reads_exactly fuel ifuel test fl dctx_init s s' fr tail content);
+      [ | | exact Hs | exact Hb | exact V | exact H ].
+    - split; [exact wf_init|]. repeat split; reflexivity.
+    - exact (first_call_init bdec).
+  Qed.
 End Exact.
